@@ -375,9 +375,8 @@ class Executor:
         if k == "gen":
             alive = self.heap_get(st, "$alive")
             return z3.And(alive[term], cls_of(term) == self.cid("GEN"))
-        if k == "date":      # False ("no date") or a date
-            return z3.Or(term == Val.boolv(False), Val.is_intv(term), Val.is_realv(term), Val.is_pinf(term),
-                         Val.is_decv(term), Val.is_dpinf(term))
+        if k == "date":      # False ("no date") or a number
+            return z3.Or(term == Val.boolv(False), smt.is_number(term))
         if k == "num":
             return smt.is_number(term)
         if k == "real":
